@@ -2912,3 +2912,104 @@ func ruleRetainedSuffixCount(c *Ctx, rule string, pkgs ...string) {
 		c.okTrivial(rule, "no counted retained suffix", token.NoPos, "no queue is re-sliced at a loop-maintained counter in "+strings.Join(pkgs, ","))
 	}
 }
+
+// ruleOverlappingRecursionMemoised: C06.n. A function that calls itself from
+// inside a loop, on suffixes of its own string parameters (name[j:], rest),
+// solves overlapping sub-problems: without remembering the ones already known
+// to fail, the number of calls grows exponentially with the number of
+// wildcards in a client-supplied pattern (LIST "" "*a*a*a…*b" spins the
+// connection's goroutine for hours, with the backend's lock held). Such a
+// function must carry a table (a map parameter or captured map) that it
+// consults before recursing and updates when a sub-problem fails.
+func ruleOverlappingRecursionMemoised(c *Ctx, rule string, pkgs ...string) {
+	p := c.P
+	n := 0
+	isStr := func(t types.Type) bool {
+		b, ok := t.Underlying().(*types.Basic)
+		return ok && b.Info()&types.IsString != 0
+	}
+	for _, fn := range p.SrcFuncs(pkgs...) {
+		if fn.Parent() != nil {
+			continue
+		}
+		var strParams []*ssa.Parameter
+		for _, q := range fn.Params {
+			if isStr(q.Type()) {
+				strParams = append(strParams, q)
+			}
+		}
+		if len(strParams) == 0 {
+			continue
+		}
+		// suffix of a string parameter: the parameter, a re-slice of it with an open upper bound,
+		// strings.TrimPrefix of it, or a phi of those
+		var isSuffix func(v ssa.Value, seen map[ssa.Value]bool) bool
+		isSuffix = func(v ssa.Value, seen map[ssa.Value]bool) bool {
+			if v == nil || seen[v] {
+				return false
+			}
+			seen[v] = true
+			for _, q := range strParams {
+				if v == ssa.Value(q) {
+					return true
+				}
+			}
+			switch x := v.(type) {
+			case *ssa.Slice:
+				return x.High == nil && isSuffix(x.X, seen)
+			case *ssa.Call:
+				if o := calleeObj(x); o != nil && o.Pkg() != nil && o.Pkg().Path() == "strings" && o.Name() == "TrimPrefix" && len(x.Call.Args) > 0 {
+					return isSuffix(x.Call.Args[0], seen)
+				}
+			case *ssa.Phi:
+				for _, e := range x.Edges {
+					if isSuffix(e, seen) {
+						return true
+					}
+				}
+			}
+			return false
+		}
+		var site *ssa.Call
+		allInstrs(fn, func(i ssa.Instruction) {
+			call, ok := i.(*ssa.Call)
+			if !ok || staticCallee(call) != fn {
+				return
+			}
+			if !reaches2(call.Block(), call.Block()) {
+				return // not in a loop
+			}
+			suffixArgs := 0
+			for _, a := range call.Call.Args {
+				if isStr(a.Type()) && isSuffix(a, map[ssa.Value]bool{}) {
+					suffixArgs++
+				}
+			}
+			if suffixArgs >= 2 {
+				site = call
+			}
+		})
+		if site == nil {
+			continue
+		}
+		n++
+		// a table consulted and updated
+		looked, updated := false, false
+		allInstrs(fn, func(i ssa.Instruction) {
+			switch x := i.(type) {
+			case *ssa.Lookup:
+				if _, isMap := x.X.Type().Underlying().(*types.Map); isMap {
+					looked = true
+				}
+			case *ssa.MapUpdate:
+				updated = true
+			}
+		})
+		c.check(looked && updated, rule, fnKey(fn)+": overlapping recursion is memoised", site.Pos(),
+			"the function consults and updates a table of sub-problems around its recursion",
+			fnKey(fn)+" calls itself from inside a loop on suffixes of its own string arguments and keeps no table of the suffix pairs already known to fail: the work is exponential in the number of wildcards of a client-supplied pattern — one LIST command keeps the connection's goroutine (and the backend's lock) busy for hours")
+	}
+	if n == 0 {
+		c.okTrivial(rule, "no self-recursion over string suffixes inside a loop", token.NoPos, "0 functions in "+strings.Join(pkgs, ","))
+	}
+}
